@@ -873,7 +873,7 @@ func RunStoreProgram(p *Program) *Result {
 	}
 	w.Res.SimTime = int64(w.Clock.Peek().Sub(start))
 	ms := w.Model.Stats
-	for k, v := range map[string]int{"sweep.adopted": ms.SweepsAdopted, "prune.adopted": ms.PrunesAdopted, "evictions": ms.EvictionsSeen, "depth.ambiguous": ms.AmbiguousDepth, "lease.presented.expired": ms.ExpiredPresents, "lease.presented.stale": ms.StalePresents, "dequeue.from.expired": ms.DequeueFromExp} {
+	for k, v := range map[string]int{"sweep.adopted": ms.SweepsAdopted, "prune.adopted": ms.PrunesAdopted, "evictions": ms.EvictionsSeen, "depth.ambiguous": ms.AmbiguousDepth, "depth.lifted_unpruned": ms.LiftedUnpruned, "lease.presented.expired": ms.ExpiredPresents, "lease.presented.stale": ms.StalePresents, "dequeue.from.expired": ms.DequeueFromExp} {
 		if v > 0 {
 			if w.Res.Probes == nil {
 				w.Res.Probes = map[string]int{}
